@@ -45,7 +45,7 @@ P = {
  "C19": ("proof", "signature/impl-header rules on type-checked item facts + rustc compile-fail witnesses with compiling twins",
          "Type-level: rustc is the checker. Every region in a public return type is tied to the receiver, &mut out needs &mut self, iterator Send/Sync bounds derived from what the type hands out; witness programs (hold-across-mutation, outlive, double-mut, cross-thread) must be rejected with the expected error code while their twins compile.", "4 C19"),
  "C20": ("other", "all-writers delta pairing on SampledLFU (used vs key_costs) + value provenance",
-         "Every mutation of key_costs is paired on the same path with the matching adjustment of used (insert uses the returned previous cost, remove subtracts the removed cost, clear zeroes, in-place update adds the difference), room_left shape, reports, fill_sample bounded push-only, clear total on every path. i64 overflow is an assumption.", "4 C20"),
+         "Every mutation of key_costs is paired on the same path with the matching adjustment of used (insert uses the returned previous cost, remove subtracts the removed cost, clear zeroes, in-place update adds the difference), room_left shape, reports, fill_sample bounded push-only from the key_costs iterator without an item-dropping adapter, clear total on every path. i64 overflow is an assumption.", "4 C20"),
 }
 
 def main():
